@@ -22,12 +22,14 @@ type sim struct{}
 func init() { core.Register(sim{}) }
 
 func (sim) Name() string        { return "walletsim" }
-func (sim) Props() []string     { return []string{"C09", "C15", "C20", "C06"} }
+func (sim) Props() []string     { return []string{"C09", "C15", "C20", "C06", "C16"} }
 func (sim) Level(string) string { return "exploration" }
 func (sim) Rule(prop string) string {
 	switch prop {
 	case "C09":
 		return "C09: a case is (parallel sections of address-issuing calls by 2-4 user tasks on the same and on different scope/account/branch, scheduling strategy + seed, target-site bias on the commit->callback window); every mutex acquisition, goroutine start and database-transaction boundary of wallet, waddrmgr, bdb and bbolt is a scheduler decision."
+	case "C16":
+		return "C16: a case is (seed, recovery window W, a generated chain whose blocks pay harness-derived addresses of the four default scopes / both branches obeying the look-ahead condition exactly, spends of recovered outputs, block-time gaps from seconds to days, birthday at or before the first paying block, locked or unlocked restore, 0-3 interruptions (Stop + reopen, or a lock request) at seeded scheduling points inside the recovery)."
 	case "C06":
 		return "C06: a case is (wallet history: receipts on all four default address types and two accounts, coinbase credits near maturity, locks, leases, clock, blocks, reorgs; requests: SendOutputs / dry CreateSimpleTx / SendOutputsWithInput with eligible and ineligible explicit inputs, random outputs, fee rates, minconf, scope, account, selection strategy; 1-4 concurrent senders)."
 	case "C20":
@@ -56,6 +58,9 @@ func (sim) Explain(prop string, st map[string]int64) string {
 	switch prop {
 	case "C09":
 		probes = []string{"probe.parked-between-commit-and-callback", "probe.same-branch-concurrent", "probe.blocked-on-newAddrMtx", "probe.dryrun-concurrent", "probe.porcupine-checked"}
+	case "C16":
+		probes = []string{"probe.paid-last-index-of-window", "probe.spend-of-recovered-output", "probe.recovery-interrupted", "probe.recovery-interrupted-midway", "probe.lock-during-recovery",
+			"probe.recovery-locked", "probe.recovery-unlocked", "probe.batch-boundary-crossed", "probe.c16-checked"}
 	case "C06":
 		probes = []string{"probe.two-senders-in-flight", "probe.spent-mature-coinbase", "probe.spent-unconfirmed-coin", "probe.explicit-ineligible:locked", "probe.explicit-ineligible:leased",
 			"probe.explicit-ineligible:other-account", "probe.explicit-ineligible:other-scope", "probe.explicit-ineligible:too-few-confirmations", "probe.explicit-ineligible:immature-coinbase",
@@ -97,6 +102,8 @@ func (sim) Generate(prop, tier string, seed uint64) *core.Plan {
 		genC20(r, p)
 	case "C06":
 		genC06(r, p)
+	case "C16":
+		genC16(r, p)
 	}
 	return p
 }
@@ -255,17 +262,19 @@ func (sim) Execute(env *core.Env, p *core.Plan) {
 		defer func() {
 			if x.running {
 				x.stop()
-			} else {
+			} else if x.db != nil {
 				_ = x.db.Close()
 			}
 		}()
-		// initial synchronisation and unlock
-		if !x.syncPoint("initial") {
-			return
-		}
-		if err := x.w.Unlock(x.privPass, nil); err != nil {
-			x.fail("setup-failed", "unlock: %v", err)
-			return
+		if x.w != nil {
+			// initial synchronisation and unlock
+			if !x.syncPoint("initial") {
+				return
+			}
+			if err := x.w.Unlock(x.privPass, nil); err != nil {
+				x.fail("setup-failed", "unlock: %v", err)
+				return
+			}
 		}
 		rs.run()
 	})
@@ -447,11 +456,14 @@ func (rs *runState) exec(task, step int, op core.Op) {
 				o.CoinbaseScript = payTo(a.addr, 0).PkScript
 			}
 			b := x.node.Mine(o)
+			if x.prop == "C16" {
+				x.afterMine(b)
+			}
 			env.Logf("%d mine h=%d txs=%d", step, b.Height, len(b.Msg.Transactions))
 		}
 		env.Count("op.mine")
 		env.Eff()
-		if !x.running {
+		if !x.running && x.w != nil {
 			env.Count("probe.node-moved-while-stopped")
 		}
 	case "reorg":
@@ -498,7 +510,7 @@ func (rs *runState) exec(task, step int, op core.Op) {
 		if newLen == depth {
 			env.Count("probe.reorg-equal-height")
 		}
-		if !x.running {
+		if !x.running && x.w != nil {
 			env.Count("probe.node-moved-while-stopped")
 		}
 		env.Logf("%d reorg depth=%d disc=%d conn=%d tip=%d", step, depth, len(disc), len(conn), x.node.Tip().Height)
@@ -638,6 +650,12 @@ func (rs *runState) exec(task, step int, op core.Op) {
 			return
 		}
 		rs.send(task, step, op)
+	case "pay":
+		rs.pay(step, op)
+	case "spendcoin":
+		rs.spendcoin(step, op)
+	case "createwallet":
+		rs.createwallet(step, op)
 	case "send6":
 		if x.running {
 			rs.send6(task, step, op)
